@@ -122,7 +122,23 @@ pub fn reg_reset() {
     REG.with(|r| *r.borrow_mut() = Registry::default());
 }
 
+#[cfg(feature = "talloc")]
+fn untagged<R>(f: impl FnOnce() -> R) -> R {
+    let was = crate::talloc::swap_in_lib(false);
+    let r = f();
+    crate::talloc::swap_in_lib(was);
+    r
+}
+#[cfg(not(feature = "talloc"))]
+fn untagged<R>(f: impl FnOnce() -> R) -> R {
+    f()
+}
+
 fn reg_new(is_key: bool) -> u64 {
+    untagged(|| reg_new_(is_key))
+}
+
+fn reg_new_(is_key: bool) -> u64 {
     REG.with(|r| {
         let mut r = r.borrow_mut();
         let id = r.state.len() as u64 + 1;
@@ -139,6 +155,10 @@ fn reg_new(is_key: bool) -> u64 {
 }
 
 fn reg_drop(id: u64) {
+    untagged(|| reg_drop_(id))
+}
+
+fn reg_drop_(id: u64) {
     // never panics: called from Drop
     let _ = REG.try_with(|r| {
         if let Ok(mut r) = r.try_borrow_mut() {
@@ -517,6 +537,7 @@ impl caches::OnEvictCallback for LogCb {
             CB_BAD.with(|b| b.set(b.get() + 1));
             return;
         };
-        CB_LOG.with(|l| l.borrow_mut().push((k, v.read())));
+        let vid = v.read();
+        untagged(|| CB_LOG.with(|l| l.borrow_mut().push((k, vid))));
     }
 }
